@@ -19,11 +19,14 @@ __repr__, result objects, argument styles, call forms, warm-ups on the same thre
 Round 4 (feature interactions): a SECOND LAYER of the model (AsynqModel.Lib.ToolsX; the driver judges every case in it,
 C14x_plain: it is the first layer where nothing below applies) carries, per case, a table of elements for which the key /
 predicate RAISES (exception class per element), the ENGINE (asynq scheduler / asyncio event loop: helper.asyncio(..)), the
-finishing time of every per-element call under asyncio, whether the function is EAGER (body runs inside function.asynq(elt):
-@async_proxy, the .asynq that asynq.mock.patch attaches) and whether the function object answers every attribute name
-(MagicMock; measured).  Expected: the exception class of the FIRST bad element in input order (what map / filter / sorted /
-max / min raise), for every engine, finishing order and function kind (C14x_spec_holds, C14_first_bad_element_wins,
-C14_engine_irrelevant).  Generator-only (no model dimension): key = asynq.mock.patch replacement of four kinds,
+finishing time of every per-element call under asyncio (the model's event loop completes the calls in that order, stores
+each outcome on its task, releases the helper after the last one, and the outcomes are read in list order), whether the
+function is EAGER (body runs inside function.asynq(elt): @async_proxy, the .asynq that asynq.mock.patch attaches) and
+whether the function object answers every attribute name (MagicMock; measured).  Expected: the exception class of the
+FIRST bad element in input order (what map / filter / sorted / max / min raise), for every engine, finishing order and
+function kind (C14x_spec_holds, C14_first_bad_element_wins, C14_engine_irrelevant, C14_gather_ignores_time; contrast:
+C14_race_depends_on_time).  Class domain: StopIteration / GeneratorExit (and subclasses) are outside the statement
+(Ext.ordinary; the model says what the code does with them, INCLUDE_SPECIAL_CLS, corpus/C14-outside-statement).  Generator-only (no model dimension): key = asynq.mock.patch replacement of four kinds,
 @deduplicate / @alru_cache function, make_async_decorator product, staticmethod / classmethod, explicit asyncio_fn=, bound
 method of a copy.copy()'d instance / copied binder; call through asynq.async_call, tools.call_with_context (counting
 AsyncContext), inside an AsyncScopedValue override the key reads, while another thread is stuck in the middle of its own
@@ -48,6 +51,7 @@ HEADLINE = [
     "AsynqModel.Tools.C14_afilter",
     "AsynqModel.Tools.C14_afilterfalse",
     "AsynqModel.Tools.C14_asorted_stable",
+    "AsynqModel.Tools.C14_asorted_in_words",
     "AsynqModel.Tools.C14_asorted_nokey",
     "AsynqModel.Tools.C14_firstExt_is_first",
     "AsynqModel.Tools.C14_firstExt_min_is_first",
@@ -82,16 +86,24 @@ HEADLINE = [
     "AsynqModel.Tools.C14_engine_irrelevant",
     "AsynqModel.Tools.C14_failing_key_calls",
     "AsynqModel.Tools.C14_yield_list_order",
+    # the asyncio engine of the model completes the tasks in order of finishing time: irrelevance of the times is
+    # PROVED (not by construction any more), and false for a reader that is woken by the first failure in time
+    "AsynqModel.Tools.C14_gather_ignores_time",
+    "AsynqModel.Tools.C14_race_depends_on_time",
+    # necessity witnesses for the class domain `Ext.ordinary` (StopIteration / GeneratorExit outside the statement)
+    "AsynqModel.Tools.C14_stopIteration_outside_statement",
+    "AsynqModel.Tools.C14_generatorExit_outside_statement",
+    "AsynqModel.Tools.C14_aretry_special_outside_statement",
 ]
 # Hold by construction of the model (one unfolding); they describe HOW tools.py is modelled, their content is the
-# correspondence run (which measures bool(f) / f == None, drives both call forms of amax / amin), not the proof.
-# Audited like the others, not counted as property theorems in MANIFEST / DESIGN.
+# correspondence run (which measures bool(f) / f == None / attribute-happiness of the function object, drives both call
+# forms of amax / amin), not the proof.  Audited like the others, counted apart (tools/gen_status.py: "n (+k by
+# construction)").
 BY_CONSTRUCTION = [
     "AsynqModel.Tools.C14_fn_object_irrelevant",
     "AsynqModel.Tools.C14_amax_varargs",
     "AsynqModel.Tools.C14_default_kw_refused",
     "AsynqModel.Tools.C14_fn_attributes_irrelevant",
-    "AsynqModel.Tools.C14_gather_ignores_time",
 ]
 THEOREMS = HEADLINE + BY_CONSTRUCTION
 # `default=` of max / min: accepted by the built-ins, refused by amax / amin ("unexpected keyword argument",
@@ -159,8 +171,11 @@ TRUSTED = [
     "second layer (Lib/ToolsX.lean): written ON TOP of Tools.run - the helpers contain no try, so an exception at their "
     "one yield of per-element tasks (or while the task list is built) leaves them unchanged; what is modelled line by line "
     "is the delivery of a yielded list in the two engines (async_task.py unwrap in list order / asynq_to_async._gather: "
-    "wait for all, read results in list order) and the list comprehension with an eager function; tied to the code by this "
-    "run (failing keys of several classes with chosen finishing times under asyncio.run)",
+    "the event loop completes the tasks in order of finishing time - ties in creation order -, asyncio.wait(ALL_COMPLETED) "
+    "releases the helper after the last one, results are read in list order), the list comprehension with an eager "
+    "function and aretry's loop seen through CPython's generator protocol; tied to the code by this run (failing keys of "
+    "several classes with chosen finishing times under asyncio.run). That the event loop's completion order is the order "
+    "of the scripted delays is an assumption about asyncio the run cannot contradict: the theorem says it is irrelevant",
     "the kinds of function object beyond None / (bool, == None, eager, answers-any-attribute), the call forms other than "
     "the engine, mid-flight debug options / gc, DebugBatchItem, a shared aretry decorator object are dimensions of the "
     "GENERATOR only (tested, not modelled)",
@@ -171,19 +186,34 @@ ASSUMPTIONS = [
     "with a failing key the STATEMENT is about the exception type only (the first bad element's, as for map / sorted / "
     "max): specX compares nothing else, the number of calls / flushes of that case is compared with the model only",
     "keys are integers (a total order); values without key are ordered by an integer or not orderable at all",
-    "afilterfalse(None, ..) is outside the statement (no async predicate); under asyncio mode there is no batch, so "
+    "afilterfalse(None, ..) is outside the statement (no async predicate: itertools.filterfalse(None, xs) keeps the falsy "
+    "elements, afilterfalse(None, xs) raises AttributeError; the model's Call.afilterfalse has no function-object "
+    "argument, so this restriction has NO Lean presence); under asyncio mode there is no batch, so "
     "the one-flush clause is empty there (flushes = []); under asyncio no BaseException-only error, no @async_proxy "
     "function returning a batch item / ErrorFuture is generated (C15's open findings and resolve_awaitables' limits)",
-    "COLLECT_PERF_STATS switched ON while tasks are in flight is not generated (INCLUDE_MIDFLIGHT_PERF = False): on the "
-    "pure-Python build every task created before the switch fails with AttributeError (_id), a defect of the profiling "
-    "code (C20), see INTEGRATION.md",
+    "CLASS DOMAIN: the exceptions a key / predicate / retried body raises are of ORDINARY classes - any class derived "
+    "from Exception or from BaseException only, except StopIteration, GeneratorExit and their subclasses. CPython gives "
+    "these two a meaning inside generators and the library follows it: a StopIteration leaves the key's generator / "
+    "coroutine frame as RuntimeError (PEP 479; sorted / max / min raise the StopIteration, list(map(..)) / filter silently "
+    "stop at the element), a GeneratorExit raised by the function of an asynq task ENDS that task with the value None "
+    "(async_task.py _continue: `except GeneratorExit: .. self._queue_exit(None)`): amap returns [.., None, ..], afilter "
+    "drops the element, asorted / amax raise TypeError, aretry(GeneratorExit, max_tries=3) runs its body ONCE and returns "
+    "None; under asyncio the GeneratorExit comes through (the engines differ). Lean: hypothesis Ext.ordinary of "
+    "C14x_spec_holds / _spec_true / _spec_only_model / C14x_plain / C14_engine_irrelevant (ordinaryCls of the first bad "
+    "element's class in C14_first_bad_element_wins), shown necessary by C14_stopIteration_outside_statement, "
+    "C14_generatorExit_outside_statement, C14_aretry_special_outside_statement; the model says what the code does with "
+    "these classes (tokens 7, 8; RuntimeError = 9) and the generator produces them only with INCLUDE_SPECIAL_CLS = True "
+    "(then CORR stays ok - 5 298 such cases, seeds 3 and 11 - and SPEC / SPECM fail); three cases to replay in "
+    "corpus/C14-outside-statement. The swallowed GeneratorExit is the scheduler's behaviour (C01/C02/C18 territory), not "
+    "the helpers'",
     "amax / amin are called with no keyword but key= (or one that max / min reject as well): default=, which max / min "
     "accept and amax / amin refuse with TypeError (tools.py:103, 129; tools.pyi declares key only), is outside the "
     "statement - C14 quantifies over iterables, async keys / predicates, reverse and the call forms. Lean: hypothesis "
     "Call.inStatement of C14_spec_holds / _spec_true / _spec_only_model, shown necessary by "
     "C14_default_kw_outside_statement; the generator produces such calls only with INCLUDE_DEFAULT_KW = True",
-    "aretry: the exception classes are tokens 1..6 with the one subclass relation 4 < 1; a script shorter than the "
-    "number of attempts is continued by attempts that return 0",
+    "aretry: the exception classes are tokens 1..6 with the one subclass relation 4 < 1 (7, 8: outside the statement, "
+    "see CLASS DOMAIN; the first-layer theorems C14_aretry_* treat every class token alike - they describe the code for "
+    "ordinary classes, C14x_plain); a script shorter than the number of attempts is continued by attempts that return 0",
 ]
 CASE_TIMEOUT = 30
 UNKNOWN = 999999
@@ -217,15 +247,17 @@ KEY_CLS = [1, 2, 3, 4]                  # classes a key / predicate raises (Exce
 MID_ACTS = ["gc", "DUMP_NEW_TASKS", "DUMP_COMPUTED", "DUMP_FLUSH_BATCH", "DUMP_DEPENDENCIES", "DUMP_YIELD_RESULTS",
             "DUMP_QUEUED_RESULTS", "DUMP_SCHEDULE_TASK", "DUMP_CONTINUE_TASK", "DUMP_SCHEDULE_BATCH", "DUMP_CONTEXTS",
             "DUMP_SYNC", "DUMP_STACK", "DUMP_EXCEPTIONS", "KEEP_DEPENDENCIES", "ENABLE_COMPLEX_ASSERTIONS"]
-# COLLECT_PERF_STATS switched on while tasks are in flight: on the pure-Python build every task created BEFORE the
-# switch fails with AttributeError ('AsyncTask' object has no attribute '_id': async_task.py:85 assigns _id only when
-# the option is on at creation, :155/:127 read it when the task completes) and the helper raises that instead of
-# returning its value.  A defect of the profiling code (property C20: options never change behaviour), not of the
-# helpers; the key of C14 "is a function of the element" (ASSUMPTIONS).  Set to True to see it reported here
-# (signature "<helper>/mid-flight=COLLECT_PERF_STATS/...").
-INCLUDE_MIDFLIGHT_PERF = True
-if INCLUDE_MIDFLIGHT_PERF:
-    MID_ACTS.append("COLLECT_PERF_STATS")
+# COLLECT_PERF_STATS switched on while tasks are in flight IS generated (since /repo 9ee915e; before that fix every
+# task created before the switch failed with AttributeError '_id' on the pure-Python build - known_findings.json,
+# property C20 - and the action was excluded here).
+MID_ACTS.append("COLLECT_PERF_STATS")
+# Exception classes with a meaning of their own in CPython's generator protocol - StopIteration (class 7) and
+# GeneratorExit (class 8) and their subclasses - are OUTSIDE the statement (ASSUMPTIONS; Lean: Ext.ordinary,
+# C14_stopIteration_outside_statement, C14_generatorExit_outside_statement, C14_aretry_special_outside_statement).
+# The model says what the code does with them (RuntimeError / a task that ends with the value None); set to True to
+# have the generator produce them: CORR stays ok, SPEC and SPECM fail and the check reports signatures
+# "<helper>/.../fail:result" (replay corpus/C14-outside-statement/*.json to see single cases).
+INCLUDE_SPECIAL_CLS = False
 HELPERS = ["amap", "afilter", "afilterfalse", "asorted", "amax", "amin", "asift"]
 
 
@@ -464,6 +496,8 @@ def gen_retry(rng):
         listed = list(ALL_CLS)
     else:
         listed = sorted(rng.sample(ALL_CLS, rng.choice([0, 1, 1, 2, 3, 4])))
+        if INCLUDE_SPECIAL_CLS and rng.random() < 0.4:
+            listed = sorted(listed + [rng.choice([7, 8])])
     n = rng.randint(0, 8)
 
     def steps(n):
@@ -471,6 +505,8 @@ def gen_retry(rng):
         for _ in range(n):
             if rng.random() < 0.75:
                 script.append(["raise", rng.choice(listed) if listed and rng.random() < 0.7 else rng.randint(1, 6)])
+                if INCLUDE_SPECIAL_CLS and not base_all and rng.random() < 0.3:
+                    script[-1] = ["raise", rng.choice([7, 8])]   # outside the statement
             else:
                 script.append(["ret", rng.randint(-3, 9)])
         return script
@@ -585,6 +621,8 @@ def gen_collection(rng, helper=None, size=None):
         nbad = rng.choice([1, 1, 2, 2, 3])
         for u in rng.sample(univ, min(nbad, len(univ))):
             u["fails"] = rng.choice(KEY_CLS + KEY_CLS + [5, 6])
+            if INCLUDE_SPECIAL_CLS and rng.random() < 0.4:
+                u["fails"] = rng.choice([7, 8])           # StopIteration / GeneratorExit subclass: outside the statement
     if flags["form"] in FORMS_AIO:
         for u in univ:
             if rng.random() < 0.5:
@@ -1070,7 +1108,15 @@ class B6(BaseException):
     pass
 
 
-EXC = {1: E1, 2: E2, 3: E3, 4: E4, 5: B5, 6: B6}
+class S7(StopIteration):
+    """generator-protocol class, OUTSIDE the statement (INCLUDE_SPECIAL_CLS): leaves a generator / coroutine as RuntimeError"""
+
+
+class G8(GeneratorExit):
+    """generator-protocol class, OUTSIDE the statement (INCLUDE_SPECIAL_CLS): ends an asynq task with the value None"""
+
+
+EXC = {1: E1, 2: E2, 3: E3, 4: E4, 5: B5, 6: B6, 7: S7, 8: G8}
 ALL_CLS = [1, 2, 3, 4, 5, 6]
 
 
@@ -1097,10 +1143,14 @@ TRUTHY = [True, 1, "x", (0,), TruthyObj(), [0], -1, 2, 0.5, TruthyLen(), {0: 0}]
 FALSY = [False, 0, None, "", (), FalsyBool(), FalsyLen(), 0.0, [], {}, b""]
 
 
-def exc_res(e, raised=None):
+def exc_res(e, raised=None, inst=0):
     if raised is not None and id(e) in raised:
         return "(raised user %d %d)" % raised[id(e)]
     t = type(e)
+    if t is RuntimeError and str(e).endswith("raised StopIteration") and isinstance(e.__cause__, S7):
+        # PEP 479: a scripted StopIteration (class 7) that left a generator / coroutine frame; the model's class token
+        # of RuntimeError is 9, its "instance" the attempt that raised (aretry) / 0 (collection helpers)
+        return "(raised user 9 %d)" % inst
     if t is TypeError:
         return "(raised typeError)"
     if t is ValueError:
@@ -1537,6 +1587,11 @@ def run_case(case):
         if helper == "amap":
             if type(value) is list and all(id(v) in keyval or type(v) is int for v in value):
                 return "(ok vals (%s))" % " ".join(str(keyval.get(id(v), v)) for v in value)
+            if type(value) is list and all(v is None or id(v) in keyval or type(v) is int for v in value):
+                # None where a per-element task was ended by GeneratorExit (INCLUDE_SPECIAL_CLS only)
+                return "(ok ovals (%s))" % " ".join("none" if v is None else str(keyval.get(id(v), v)) for v in value)
+        if value is None and helper != "amax" and helper != "amin":
+            return "(ok none)"                 # an eager key raised GeneratorExit inside the helper's own frame
         elif helper in ("afilter", "afilterfalse", "asorted"):
             if type(value) is list:
                 return "(ok elems %s)" % tl(value)
@@ -1764,6 +1819,9 @@ def run_retry(case, st, HItem, call, asynq, tools, time, ConstFuture, ErrorFutur
     blocking = 1 if (case["blocking"] and body_kind != "plain") else 0   # a plain function cannot block
     if aio and BODY_MODEL[body_kind] == "eager":
         blocking = 0                           # batch items are refused under asyncio: an eager body hands back a ConstFuture
+    # under asyncio the call of an @async_proxy function becomes a coroutine of its own: the body no longer runs inside
+    # aretry's frame (with blocking = 0 the two kinds differ for generator-protocol classes only, INCLUDE_SPECIAL_CLS)
+    model_kind = "lazy" if (aio and body_kind in ("proxy", "proxyerr")) else BODY_MODEL[body_kind]
     mid = case.get("mid")
     dbg_saved = {}
 
@@ -1870,10 +1928,12 @@ def run_retry(case, st, HItem, call, asynq, tools, time, ConstFuture, ErrorFutur
     shared = case.get("shared", 0)
     decoy_runs = [0]
 
+    decoy_cls = next((c for c in case["listed"] if c <= 6), None)   # (7, 8: outside the statement, INCLUDE_SPECIAL_CLS)
+
     @asynq.asynq()
     def decoy_body(a, b=None):
         decoy_runs[0] += 1
-        raise EXC[case["listed"][0] if case["listed"] else 3]("decoy")
+        raise EXC[decoy_cls or 3]("decoy")
 
     def run_decoy(decoy):
         """ANOTHER function decorated by the same decorator object, run until it gives up"""
@@ -1923,7 +1983,7 @@ def run_retry(case, st, HItem, call, asynq, tools, time, ConstFuture, ErrorFutur
                 try:
                     call(wrapped, (A,), {"b": B})
                 except BaseException as e:
-                    if id(e) not in raised:
+                    if id(e) not in raised and not (type(e) is RuntimeError and isinstance(e.__cause__, S7)):
                         raise
                 phase["script"] = case["script"]
                 st.cur, st.flushes, st.calls, sleeps[0] = None, [], 0, 0
@@ -1943,7 +2003,7 @@ def run_retry(case, st, HItem, call, asynq, tools, time, ConstFuture, ErrorFutur
             # Exception (the worker's per-case timeout, KeyboardInterrupt) is not an observation
             if not isinstance(e, Exception) and id(e) not in raised:
                 raise
-            res = exc_res(e, raised)
+            res = exc_res(e, raised, max(st.calls - 1, 0))
     finally:
         time.sleep = real_sleep
         asynq.debug.stdout, asynq.debug.stderr = sink
@@ -1951,12 +2011,12 @@ def run_retry(case, st, HItem, call, asynq, tools, time, ConstFuture, ErrorFutur
             setattr(asynq.debug.options, o, val)
     if not ok_args[0]:
         res = "(raised other ArgumentsNotForwarded)"
-    if shared and decoy_runs[0] != max(case["max"], 1) and case["max"] > 0 and case["listed"]:
+    if shared and decoy_runs[0] != max(case["max"], 1) and case["max"] > 0 and decoy_cls:
         res = "(raised other DecoyRan-%d)" % decoy_runs[0]
     lines = ["(case tools %d aretry)" % case["id"], "(univ)", "(ext %s 0 0)" % ("asyncio" if aio else "asynq")]
     lines.append("(call aretry %d (%s) (script %s) %d %s)" % (
         case["max"], " ".join(str(c) for c in case["listed"]),
-        " ".join("(%s %d)" % (s[0], s[1]) for s in case["script"]), blocking, BODY_MODEL[body_kind]))
+        " ".join("(%s %d)" % (s[0], s[1]) for s in case["script"]), blocking, model_kind))
     lines.append("(obs %s (flushes%s) %d %d)" % (res, "".join(" %d" % f for f in st.flushes), st.calls, sleeps[0]))
     lines.append("(end)")
     feats = ["helper=aretry", "form=" + case["form"], "max_tries=%d" % min(case["max"], 7), "runs=%d" % min(st.calls, 7),
